@@ -98,7 +98,7 @@ fn client_server(d: &Draw, w: &Arc<World>, sandbox: &Sandbox, prop: &'static str
     let tmo = d.pick("swarm.timeout.table", &[5u64, 1, 2, 30, 255]);
     let max_blocks = if dup.map_or(false, |n| n > 3) { 5 } else { 48 };
     let mut len = draw_len(d, b, wsz, max_blocks, 1 << 20);
-    if tier == Tier::Thorough && dup.is_none() && d.chance("swarm.wrap_run", 1, 400) {
+    if dup.is_none() && d.chance("swarm.wrap_run", 1, if tier == Tier::Thorough { 300 } else { 1500 }) {
         // a transfer beyond 65535 blocks at blksize 8..9
         len = 65536 * b.min(9) + 3;
     }
@@ -504,6 +504,14 @@ pub fn wrap(_tier: Tier, w: &Arc<World>) -> Scn {
         fc.fate_w = [10, 3, 2, 1, 0, 1];
         fc.budget = 1 + d.range("swarm.fault.budget", 4);
         fc.after_first_data = true;
+        // stratified part: one or two faults forced onto the datagrams that carry the numbers around the wrap
+        let nf = 1 + d.range("swarm.forced.count", 2);
+        for _ in 0..nf {
+            let op = if d.chance("swarm.forced.ack", 1, 2) { 4u8 } else { 3u8 };
+            let num = d.pick("swarm.forced.number", &[0u16, 65535, 1, 65534, 2]);
+            let fate = if d.chance("swarm.forced.dup", 1, 3) { crate::world::Fate::Dup } else { crate::world::Fate::Drop };
+            fc.forced.push((op, num, fate));
+        }
     }
     {
         let mut g = w.lock();
